@@ -183,6 +183,7 @@ def run(ctx, rep) -> None:
     rep.floor("store sites inside retried closures", n_sites, 15)
 
     _r3_dataflow(ctx, rep)
+    snapshot_writeback_rule(ctx, rep, "C07.R3")
     token_integrity_rule(ctx, rep, "C07.R1")
 
     # ---- R4 no swallow ------------------------------------------------------------------------------
@@ -262,6 +263,61 @@ def token_integrity_rule(ctx, rep, rid: str) -> None:
     early = [c for c in ast.walk(rs.node) if isinstance(c, ast.Call) and isinstance(c.func, ast.Attribute) and c.func.attr in ("get_upstream_stages", "get_synthetic_stages") and c.lineno < first_stage]
     rep.check(ok and not early, rid, "retrieve_stage reads the versioned stage row before its tasks", "SELECT stage_executions (version) precedes SELECT task_executions: an old task snapshot can never be paired with a newer version"
               if ok else "the task rows are read before the stage row: a reader can pair an OLD task list with the CURRENT version and pass the version check with stale data", rs.file, (task_sel[0].line if task_sel else rs.node.lineno), disc="read-order")
+
+
+def snapshot_writeback_rule(ctx, rep, rid: str) -> None:
+    """No WHOLE-context snapshot of a stage is written back onto a stage object: `snap = dict(X.context)` ... `Y.context.update(snap)`
+    (also through a default argument of a deferred mutation) overwrites every key another writer changed since X was read -
+    the version CAS cannot object because Y is fresh. Only the keys the step itself sets may be written."""
+    prog = ctx.prog
+    n = 0
+    for f in prog.all_functions():
+        if not f.module.name.startswith("stabilize.handlers"):
+            continue
+        if f.parent is not None:
+            continue            # nested functions are scanned as part of their outermost function
+        snaps: dict = {}
+        for a in ast.walk(f.node):
+            if isinstance(a, ast.Assign) and len(a.targets) == 1 and isinstance(a.targets[0], ast.Name):
+                v = a.value
+                t = norm(v)
+                src = None
+                if isinstance(v, ast.Call) and norm(v.func) == "dict" and len(v.args) == 1 and norm(v.args[0]).endswith(".context"):
+                    src = norm(v.args[0])
+                elif isinstance(v, ast.Call) and t.endswith(".context.copy()"):
+                    src = t[: -len(".copy()")]
+                elif isinstance(v, ast.Dict) and len(v.keys) == 1 and v.keys[0] is None and norm(v.values[0]).endswith(".context"):
+                    src = norm(v.values[0])
+                if src:
+                    snaps[a.targets[0].id] = (src, a.lineno)
+        if not snaps:
+            continue
+        # names that carry a snapshot into a deferred mutation: parameters whose default is a snapshot variable
+        carriers = dict(snaps)
+        for g in ast.walk(f.node):
+            if isinstance(g, (ast.FunctionDef, ast.Lambda)) and g is not f.node:
+                args = g.args
+                pos = args.args
+                for p_, d_ in zip(pos[len(pos) - len(args.defaults):], args.defaults):
+                    if isinstance(d_, ast.Name) and d_.id in snaps:
+                        carriers[p_.arg] = snaps[d_.id]
+                for p_, d_ in zip(args.kwonlyargs, args.kw_defaults):
+                    if isinstance(d_, ast.Name) and d_.id in snaps:
+                        carriers[p_.arg] = snaps[d_.id]
+        for c in ast.walk(f.node):
+            if isinstance(c, ast.Call) and isinstance(c.func, ast.Attribute) and c.func.attr == "update" and norm(c.func.value).endswith(".context") and c.args and isinstance(c.args[0], ast.Name) and c.args[0].id in carriers:
+                n += 1
+                src, line = carriers[c.args[0].id]
+                tgt = norm(c.func.value)
+                rep.fail(rid, f"{f.qualname}: whole-context snapshot written back", f"`{c.args[0].id}` is a copy of `{src}` (line {line}) - every key of that earlier read is written onto `{tgt}`: whatever another handler stored on the stage in between "
+                         "(a buffered persistent signal, join bookkeeping) is overwritten, and keys the re-arm has just cleared come back; the version check passes because the target object is fresh",
+                         f.file, c.lineno, disc=f"snapshot:{f.qualname}:{src}")
+            if isinstance(c, ast.Assign) and any(norm(t_).endswith(".context") for t_ in c.targets) and isinstance(c.value, ast.Name) and c.value.id in carriers and carriers[c.value.id][0] != norm(c.targets[0]):
+                n += 1
+                rep.fail(rid, f"{f.qualname}: context replaced by a snapshot of another read", f"`{norm(c)}`", f.file, c.lineno, disc=f"snapshot-assign:{f.qualname}")
+    rep.count(snapshot_writebacks=n)
+    if not n:
+        rep.ok(rid, "no whole-context snapshot is written back onto a stage", "scanned stabilize.handlers for dict(X.context) / X.context.copy() flowing into Y.context.update(...)", "src/stabilize/handlers", 0)
 
 
 def _r3_dataflow(ctx, rep) -> None:
